@@ -82,7 +82,8 @@ ObsCb(o, ev) ==
       \* still completes the open transaction: the weaker reading, see DESIGN.md 3.2)
       vTunnel == IF o.call.k # "close" /\ ((sd = "q" /\ o.tunnel.req) \/ (sd = "s" /\ o.tunnel.res)) THEN {V("C16:TunnelQuiet", n, i)} ELSE {}
       \* C16: while a CONNECT is waiting for its answer no request-side callback of a LATER transaction may run
-      vSuspend == IF sd = "q" /\ o.waitconnect >= 0 THEN {V("C16:ConnectSuspends", n, i)} ELSE {}
+      \* (callbacks of the CONNECT transaction itself - e.g. its completion at close - are not consumption beyond that request)
+      vSuspend == IF sd = "q" /\ o.waitconnect >= 0 /\ i # o.waitconnect THEN {V("C16:ConnectSuspends", n, i)} ELSE {}
       \* C06 at completion: entity length = bytes delivered; identity + no content coding => message length = entity length
       isq == n = "request_complete"
       iss == n = "response_complete"
@@ -227,6 +228,9 @@ ObsStep(o, ev) ==
     [] ev.e = "Final" -> ObsFinal(o0, ev)
     [] ev.e = "End" -> ObsEnd(o0, ev)
     [] ev.e = "Fault" -> [o0 EXCEPT !.faulted = TRUE, !.gsites = @ \cup {"fault:" \o ev.fn}]
+    \* C01: a data callback was handed a NULL transaction pointer (htp_tx_data_t.tx is documented as the transaction the data belongs to;
+    \* a callback that follows the documentation dereferences it)
+    [] ev.e = "NullTx" -> Add(o0, {V("C01:CallbackHasTransaction", ev.n, -1)})
     [] OTHER -> o0
 
 \* what is reported for one execution
